@@ -177,7 +177,8 @@ class CoverpointCrossModel(CoverItemBase):
             key = tuple(key_m)
             bin_idx = self.tuple2idx_m[key]
             self.hit_l[bin_idx] += 1
-            if bin_idx in self.unhit_s:
+            # A bin is covered once it has been hit 'at_least' times
+            if bin_idx in self.unhit_s and self.hit_l[bin_idx] >= self.options.at_least:
                 # New bin hit
                 self.parent.coverage_ev(self, bin_idx)
                 self.unhit_s.remove(bin_idx)
